@@ -802,3 +802,39 @@ def schema_validation_total(check: Check, repo: Repo, mr: MayRaise, rule: str = 
                      f"`{t}` may be an output type in an invalid schema (input I {{ f: Query }}): assert_leaf_type raises TypeError out of validate_schema")
         if n == 0:
             raise AnalysisError(f"{q}: descent into field types not found")
+
+
+def raised_values_guarded(check: Check, repo: Repo, rule: str = "RAISED-VALUE-CLASS") -> None:
+    from rules.language_rules import norm_facts
+
+    check.rule(
+        rule,
+        "a resolver (or an event source) may *return* an exception object instead of raising it, and execution then "
+        "raises it so that it is handled like a raised one: every `raise <value>` of a parameter in the execution package "
+        "is reached only under the must-fact isinstance(<value>, Exception) - the class the field guards catch "
+        "(EXEC-WRAP: `except Exception`). Widening the test to BaseException re-raises a returned CancelledError / "
+        "GeneratorExit (asyncio.gather(..., return_exceptions=True) hands them out as values) past every guard and out of "
+        "graphql_sync",
+    )
+    n = 0
+    for mod in repo.package_modules("execution"):
+        for fn in mod.functions():
+            if isinstance(fn, ast.Lambda):
+                continue
+            params = {a.arg for a in fn.args.posonlyargs + fn.args.args + fn.args.kwonlyargs}
+            raises = [r for r in walk_body(fn) if isinstance(r, ast.Raise) and isinstance(r.exc, ast.Name) and r.exc.id in params and r.cause is None]
+            if not raises:
+                continue
+            flow = FactFlow(CFG(fn))
+            for r in raises:
+                v = r.exc.id
+                facts = norm_facts(flow.facts_at(r))
+                classes = sorted({t[len(f"isinstance({v}, "):-1] for t, p in facts if p and t.startswith(f"isinstance({v}, ")})
+                if not classes:
+                    continue  # not a returned-exception re-raise (e.g. `raise error` of a caught exception handed in)
+                n += 1
+                ok = classes == ["Exception"]
+                check.ob(rule, r, f"{qualname_of(r)}: raise {v}", ok,
+                         "only under isinstance(..., Exception)" if ok else f"raised under isinstance({v}, {', '.join(classes)}): wider than what the field guards catch")
+    if n < 2:
+        raise AnalysisError("RAISED-VALUE-CLASS: re-raise sites of returned exceptions not found")
